@@ -34,9 +34,11 @@ type Env struct {
 	// under a memory cap with crash_is_violation.
 	HostileGroupMetadata bool
 	// HostileCounts: count-like request numbers a handler might size an allocation from
-	// (ListOffsets v0 MaxNumOffsets) are drawn from {negative, 0, 1, 2^25, 2^30, MaxInt32} as
-	// well. Only for legs that run under a memory cap with crash_is_violation.
+	// (ListOffsets v0 MaxNumOffsets: {negative, 0, 1, 2^25, 2^30, MaxInt32}; CreateTopics
+	// NumPartitions / CreatePartitions Count: 2^28 .. 2^31-1) are drawn from hostile values as well. Only for legs that run under a memory cap with crash_is_violation.
 	HostileCounts bool
+	// HostilePartitionIndex: one partition index in eight is 2^28 .. 2^31-1.
+	HostilePartitionIndex bool
 	// MaxArray is the largest array length drawn (default 3).
 	MaxArray int
 }
@@ -331,8 +333,13 @@ func genInt(t *rapid.T, name string, bits int, env *Env, path string) int64 {
 	switch {
 	case ln == "acks":
 		return rapid.SampledFrom([]int64{-1, 0, 1}).Draw(t, path)
+	case (ln == "partition" || ln == "partitions" || ln == "partitionindex") && env.HostilePartitionIndex && rapid.IntRange(0, 7).Draw(t, path+"?hostile-index") == 0:
+		// either harmless or far beyond any memory cap (never a few GiB worth of partitions)
+		return rapid.SampledFrom([]int64{1<<31 - 2, 1<<31 - 1, 1 << 30, 1 << 28}).Draw(t, path)
 	case ln == "partition" || ln == "partitions" || ln == "partitionindex":
 		return int64(rapid.IntRange(0, 3).Draw(t, path))
+	case (ln == "numpartitions" || ln == "count") && env.HostileCounts && rapid.IntRange(0, 3).Draw(t, path+"?hostile-count") == 0:
+		return rapid.SampledFrom([]int64{1<<31 - 1, 1<<31 - 2, 1 << 30, 1 << 28}).Draw(t, path)
 	case ln == "numpartitions" || ln == "count":
 		return int64(rapid.IntRange(-1, 6).Draw(t, path))
 	case ln == "replicationfactor":
